@@ -27,8 +27,9 @@ type monLog struct {
 	init    *[]kv.Obj
 	entries []string // (create O) ...
 	block   chan struct{}
-	early   int // event callbacks made before OnInitialize
-	inits   int // calls of OnInitialize
+	early   int  // event callbacks made before OnInitialize
+	inits   int  // calls of OnInitialize
+	nilInit bool // OnInitialize was handed a nil slice (the cache never lists nil: only an ignored List error does)
 }
 
 type tnode struct {
@@ -80,6 +81,9 @@ func treeFilters() []kv.Term {
 		{Op: "fn", N: 0},
 		{Op: "not", Kids: []kv.Term{{Op: "labels", Map: map[string]string{"l": "1"}}}},
 		{Op: "labelsel", LS: &kv.LabelSel{ME: []kv.LSReq{{Key: "t", Op: "Exists"}}}},
+		// the same full id, with and without a namespace-wide entry next to it
+		{Op: "nsname", IDs: [][2]string{{"a", "x"}}},
+		{Op: "nsname", IDs: [][2]string{{"a", "x"}, {"b", ""}}},
 	}
 }
 
@@ -193,6 +197,9 @@ func (w *treeWorld) attachAs(p *tnode, kind string, ft kv.Term) {
 				}
 				ml.init = &l
 				ml.inits++
+				if objs == nil {
+					ml.nilInit = true
+				}
 				ml.mu.Unlock()
 			}).
 			OnCreate(func(o metav1.Object) { ml.add("create", o) }).
@@ -475,9 +482,9 @@ func (w *treeWorld) observe() {
 			}
 			log := kv.L(n.mlog.entries...)
 			n.mlog.entries = nil
-			early, inits := n.mlog.early, n.mlog.inits
+			early, inits, nilInit := n.mlog.early, n.mlog.inits, n.mlog.nilInit
 			n.mlog.mu.Unlock()
-			w.tr.line(kv.L("monobs", fmt.Sprint(n.id), kv.Bool(isClosed(n.done)), init, log, fmt.Sprint(early), fmt.Sprint(inits)))
+			w.tr.line(kv.L("monobs", fmt.Sprint(n.id), kv.Bool(isClosed(n.done)), init, log, fmt.Sprint(early), fmt.Sprint(inits), kv.Bool(nilInit)))
 			continue
 		}
 		evs := "none"
@@ -670,10 +677,32 @@ func runTreeScenario(t *testing.T, tr *tracer, idx int, seed uint64, mode string
 					w.step(func() { w.attach(kinds) })
 				}
 			}
-			w.step(func() {
-				tr.line(kv.L("release"))
-				close(w.srv.ListGate)
-			})
+			if r.Chance(1, 4) {
+				// readiness and shutdown at (virtually) the same instant, with a monitor waiting for readiness
+				w.step(func() { w.attachAs(w.nodes[0], "mon", kv.Term{Op: "null"}) })
+				closeNow := r.Chance(1, 2)
+				w.step(func() {
+					tr.line(kv.L("burst-begin"))
+					tr.line(kv.L("release"))
+					close(w.srv.ListGate)
+					if closeNow {
+						tr.line(kv.L("closeroot"))
+						root.Close()
+					} else {
+						tr.line(kv.L("cancel"))
+						w.cancel()
+					}
+					tr.line(kv.L("burst-end"))
+					for _, n := range w.nodes {
+						n.closed = true
+					}
+				})
+			} else {
+				w.step(func() {
+					tr.line(kv.L("release"))
+					close(w.srv.ListGate)
+				})
+			}
 		}
 		steps := 8 + r.Intn(14)
 		if mode == "c12" {
